@@ -22,6 +22,8 @@ import (
 
 type vfPSState struct {
 	delivered   []string // payload markers in invocation order
+	delivered2  []string // the same for the second subscription (topicB), when there is one
+	unsub2Err   error
 	startedLate []string // invocations that started for messages published after Unsubscribe returned
 	pubBefore   map[string]bool
 	pubAfter    map[string]bool
@@ -35,7 +37,9 @@ type vfPSState struct {
 
 func vfPSMake(scn string) (func(), func(*vsched.Exec) (string, *vsched.Violation)) {
 	// scn: "t=nats,w=1,m=V.M0.V,u=2" | u=none | u=race
-	cfg := map[string]string{"t": "nats", "w": "1", "m": "V", "u": "none"}
+	// s2=1: a second subscription on topicB made from the same factory / connection; u2=end: it
+	// unsubscribes after the last message
+	cfg := map[string]string{"t": "nats", "w": "1", "m": "V", "u": "none", "s2": "0", "u2": "none"}
 	for _, kv := range strings.Split(scn, ",") {
 		p := strings.SplitN(kv, "=", 2)
 		if len(p) == 2 {
@@ -48,62 +52,84 @@ func vfPSMake(scn string) (func(), func(*vsched.Exec) (string, *vsched.Violation
 	body := func() {
 		vfResetGlobals()
 		st = &vfPSState{pubBefore: map[string]bool{}, pubAfter: map[string]bool{}}
-		var sub FSubscriberTransport
+		var sub, sub2 FSubscriberTransport
 		var pub FPublisherTransport
 		var raw func(topic string, data []byte)
 		if cfg["t"] == "nats" {
 			c := fakenats.NewConn()
 			st.nats = c
-			sub = NewFNatsSubscriberFactoryBuilder(c).WithWorkerCount(uint(workers)).WithQueueLength(4).Build().GetTransport()
+			factory := NewFNatsSubscriberFactoryBuilder(c).WithWorkerCount(uint(workers)).WithQueueLength(4).Build()
+			sub = factory.GetTransport()
 			// the builder's factory ignores its queue settings in GetTransport: use what it returns
 			sub.(*fNatsSubscriberTransport).workerCount = uint(workers)
+			if cfg["s2"] == "1" {
+				sub2 = factory.GetTransport()
+				sub2.(*fNatsSubscriberTransport).workerCount = uint(workers)
+			}
 			pub = NewNatsFPublisherTransport(c)
 			raw = func(topic string, data []byte) { c.Publish("frugal."+topic, data) }
 		} else {
 			c := fakestomp.NewConn()
 			st.stomp = c
 			sub = newStompFSubscriberTransport(c, "", false)
+			if cfg["s2"] == "1" {
+				sub2 = newStompFSubscriberTransport(c, "", false)
+			}
 			pub = newStompFPublisherTransport(c, 0, "")
 			raw = func(topic string, data []byte) { c.Send("/topic/frugal."+topic, "application/octet-stream", data) }
 		}
 		pub.Open()
-		cb := func(tr thrift.TTransport) error {
-			// like a generated recv callback, read incrementally and stop at the first error,
-			// leaving the rest of the frame unread
-			var hd [5]byte
-			if _, err := io.ReadFull(tr, hd[:1]); err != nil || hd[0] != 0 {
-				return errors.New("bad version")
+		var mkcb func(second bool) FAsyncCallback
+		mkcb = func(second bool) FAsyncCallback {
+			return func(tr thrift.TTransport) error {
+				// like a generated recv callback, read incrementally and stop at the first error,
+				// leaving the rest of the frame unread
+				var hd [5]byte
+				if _, err := io.ReadFull(tr, hd[:1]); err != nil || hd[0] != 0 {
+					return errors.New("bad version")
+				}
+				if _, err := io.ReadFull(tr, hd[1:5]); err != nil {
+					return errors.New("short header size")
+				}
+				n := int(binary.BigEndian.Uint32(hd[1:5]))
+				if n < 0 || uint64(n) > tr.RemainingBytes() {
+					return errors.New("header block longer than the frame")
+				}
+				hb := make([]byte, n)
+				if _, err := io.ReadFull(tr, hb); err != nil {
+					return errors.New("short header block")
+				}
+				rest, _ := io.ReadAll(tr)
+				h, pl, err := vfParse(append(append(append([]byte{}, hd[:]...), hb...), rest...))
+				if err != nil {
+					return errors.New("bad frame")
+				}
+				mark := string(pl)
+				if h["_cid"] != "cid-"+mark || h["user"] != "hdr-"+mark {
+					st.hdrBad = fmt.Sprintf("message %s delivered with headers %v", mark, h)
+				}
+				if second {
+					vsched.Note("deliver to the second subscription " + mark)
+					st.delivered2 = append(st.delivered2, mark)
+					vsched.Yield()
+					return nil
+				}
+				if st.pubAfter[mark] {
+					st.startedLate = append(st.startedLate, mark)
+				}
+				vsched.Note("deliver " + mark)
+				st.delivered = append(st.delivered, mark)
+				vsched.Yield()
+				return nil
 			}
-			if _, err := io.ReadFull(tr, hd[1:5]); err != nil {
-				return errors.New("short header size")
-			}
-			n := int(binary.BigEndian.Uint32(hd[1:5]))
-			if n < 0 || uint64(n) > tr.RemainingBytes() {
-				return errors.New("header block longer than the frame")
-			}
-			hb := make([]byte, n)
-			if _, err := io.ReadFull(tr, hb); err != nil {
-				return errors.New("short header block")
-			}
-			rest, _ := io.ReadAll(tr)
-			h, pl, err := vfParse(append(append(append([]byte{}, hd[:]...), hb...), rest...))
-			if err != nil {
-				return errors.New("bad frame")
-			}
-			mark := string(pl)
-			if st.pubAfter[mark] {
-				st.startedLate = append(st.startedLate, mark)
-			}
-			if h["_cid"] != "cid-"+mark || h["user"] != "hdr-"+mark {
-				st.hdrBad = fmt.Sprintf("message %s delivered with headers %v", mark, h)
-			}
-			vsched.Note("deliver " + mark)
-			st.delivered = append(st.delivered, mark)
-			vsched.Yield()
-			return nil
 		}
-		if err := sub.Subscribe("topicA", cb); err != nil {
+		if err := sub.Subscribe("topicA", mkcb(false)); err != nil {
 			panic(err)
+		}
+		if sub2 != nil {
+			if err := sub2.Subscribe("topicB", mkcb(true)); err != nil {
+				panic(err)
+			}
 		}
 		doUnsub := func() {
 			st.unsubCalled = true
@@ -162,6 +188,9 @@ func vfPSMake(scn string) (func(), func(*vsched.Exec) (string, *vsched.Violation
 			}
 			if upos == len(msgs) {
 				doUnsub()
+			}
+			if sub2 != nil && cfg["u2"] == "end" {
+				st.unsub2Err = sub2.Unsubscribe()
 			}
 		})
 		if cfg["u"] == "race" {
@@ -238,6 +267,37 @@ func vfPSMake(scn string) (func(), func(*vsched.Exec) (string, *vsched.Violation
 		if st.unsubErr != nil {
 			viol("C07/unsubscribe-error", fmt.Sprint(st.unsubErr))
 		}
+		if cfg["s2"] == "1" {
+			// the second subscription (topicB) is independent of the first: it gets every topicB
+			// message exactly once whatever happens to the first one, and nothing else
+			count2 := map[string]int{}
+			last := -1
+			for _, d := range st.delivered2 {
+				count2[d]++
+				if !strings.HasPrefix(d, "F") {
+					viol("C07/foreign-or-malformed-delivered", fmt.Sprintf("the topicB subscription's handler was invoked for %s", d))
+				}
+				if count2[d] > 1 {
+					viol("C07/duplicate-delivery", fmt.Sprintf("message %s delivered %d times to the topicB subscription", d, count2[d]))
+				}
+				idx, _ := strconv.Atoi(strings.TrimLeft(d, "VFMHL03"))
+				if workers == 1 && idx < last {
+					viol("C07/out-of-order", fmt.Sprintf("single-worker topicB subscription delivered %v out of publish order", st.delivered2))
+				}
+				last = idx
+			}
+			if cfg["u2"] != "end" {
+				for i, k := range msgs {
+					m := fmt.Sprintf("%s%d", k, i)
+					if k == "F" && count2[m] != 1 {
+						viol("C07/message-lost/sibling-subscription", fmt.Sprintf("topicB message %s was never delivered to the topicB subscription, which stayed subscribed (the topicA subscription: unsubscribe=%s)", m, cfg["u"]))
+					}
+				}
+			}
+			if st.unsub2Err != nil {
+				viol("C07/unsubscribe-error", fmt.Sprint(st.unsub2Err))
+			}
+		}
 		return out, first
 	}
 	return body, check
@@ -281,6 +341,16 @@ func init() {
 			for _, s := range []string{"V.V.V", "V.M0.V", "M3.V.V", "V.V.F"} {
 				out = append(out, fmt.Sprintf("t=nats,w=2,m=%s,u=none", s), fmt.Sprintf("t=nats,w=2,m=%s,u=race", s))
 			}
+			// two subscriptions made from one factory / connection, on different topics
+			for _, t := range []string{"nats", "stomp"} {
+				for _, s := range []string{"V.F.V", "F.V.F", "V.V.F", "F.F.V"} {
+					for _, u := range []string{"none", "0", "1", "2", "race"} {
+						out = append(out, fmt.Sprintf("t=%s,w=1,m=%s,u=%s,s2=1", t, s, u))
+					}
+					out = append(out, fmt.Sprintf("t=%s,w=1,m=%s,u=1,s2=1,u2=end", t, s))
+				}
+			}
+			out = append(out, "t=nats,w=2,m=V.F.V,u=none,s2=1", "t=nats,w=2,m=F.V.F,u=1,s2=1")
 			if tier == "thorough" {
 				for _, t := range []string{"nats", "stomp"} {
 					for _, s := range []string{"V.V.V.V", "V.M0.V.V", "V.V.M3.V", "MH.V.F.V", "V.MV.V.V"} {
